@@ -189,3 +189,7 @@ func TestMain(m *testing.M)   { vf.Main(m, "C11") }
 func TestCorpus(t *testing.T) { vf.Corpus(t) }
 func TestProp(t *testing.T)   { vf.RunAll(t) }
 func TestReplay(t *testing.T) { vf.ReplayEnv(t) }
+
+// native fuzz targets (thorough tier): the fuzzer mutates the byte stream that rapid decodes into generator choices
+func FuzzTrees(f *testing.F) { vf.FuzzNamed(f, "C11", "trees-any-polarity") }
+func FuzzShared(f *testing.F) { vf.FuzzNamed(f, "C11", "shared-subformulas") }
